@@ -251,6 +251,11 @@ func ArgsMap(r *rand.Rand) ref.V {
 			}
 		}
 		if len(m.M) >= 1 {
+			// every argument map also carries a string with multi-byte characters at both ends and a
+			// short list: what a policy selector cuts out of them depends on how positions are counted
+			m.M = append(m.M, ref.KV{K: "zz-text", V: ref.Str(Pick(r, []string{"édition-日本語-ß", "ß-straße", "日本語テキスト", "añejo/é", "éclair-é"}))},
+				ref.KV{K: "zz-list", V: ref.List(ref.Int(int64(r.IntN(9))), ref.Str("é"), ref.Int(int64(r.IntN(9))), ref.Float(2.5))})
+			m.M = NormMapKeys(m.M)
 			return m
 		}
 	}
